@@ -276,6 +276,26 @@ theorem nodeOf_internal (lim : Option Nat) (pre : Str) (M M' : List Str)
   obtain ⟨m, hm, hc⟩ := h
   exact ⟨m, hM m (internal_chain hs (chain_trans hc (flatten_mem_chain lim m))) hm, hc⟩
 
+/-- an internal known module stays known when the module list keeps its internal members -/
+theorem known_internal (pre : Str) (M M' : List Str)
+    (hM : ∀ m, isInternal m pre = true → m ∈ M → m ∈ M') (s : Str) (hs : isInternal s pre = true)
+    (h : s ∈ knownModules M) : s ∈ knownModules M' := by
+  rw [mem_knownModules] at h ⊢
+  rcases h with h | ⟨m, hm, hp⟩
+  · exact Or.inl (hM s hs h)
+  · exact Or.inr ⟨m, hM m (internal_chain hs (parent_mem_chain hp)) hm, hp⟩
+
+/-- an import between internal modules that is not skipped for `M` is not skipped for `M'` -/
+theorem skip_internal (lim : Option Nat) (pre : Str) (M M' : List Str)
+    (hM : ∀ m, isInternal m pre = true → m ∈ M → m ∈ M') (i : ImportRec)
+    (h1 : isInternal i.importer pre = true) (h2 : isInternal i.importee pre = true)
+    (h : skipImportEdge lim (knownModules M) i = false) : skipImportEdge lim (knownModules M') i = false := by
+  cases lim with
+  | none => rfl
+  | some k =>
+    rw [skipImportEdge_some] at h ⊢
+    exact ⟨known_internal pre M M' hM _ h1 h.1, known_internal pre M M' hM _ h2 h.2⟩
+
 /-- one direction of the comparison: everything internal in the first graph is in the second -/
 theorem internal_sub (lim : Option Nat) (pre : Str) (M M' : List Str) (R R' : List ImportRec)
     (h1 : ∀ i ∈ R, NodeOf lim M (flattenNode lim i.importer) ∧ i.importeeParents = parentModules i.importee)
@@ -299,9 +319,11 @@ theorem internal_sub (lim : Option Nat) (pre : Str) (M M' : List Str) (R R' : Li
     simp only [List.mem_filter, Bool.and_eq_true, mem_importPairs]
     rintro ⟨he, ha, hb⟩
     refine ⟨?_, ha, hb⟩
-    obtain ⟨e1, e2, e3, e4, i, hi, rfl, rfl⟩ := (f1 a b).1 he
-    refine (f2 _ _).2 ⟨e1, e2, hN _ ha e3, hN _ hb e4, i, ?_, rfl, rfl⟩
-    exact hR i (internal_chain hb (flatten_mem_chain lim _)) hi
+    obtain ⟨e1, e2, e3, e4, i, hi, hsk, rfl, rfl⟩ := (f1 a b).1 he
+    refine (f2 _ _).2 ⟨e1, e2, hN _ ha e3, hN _ hb e4, i, ?_, ?_, rfl, rfl⟩
+    · exact hR i (internal_chain hb (flatten_mem_chain lim _)) hi
+    · exact skip_internal lim pre M M' hM i (internal_chain ha (flatten_mem_chain lim _))
+        (internal_chain hb (flatten_mem_chain lim _)) hsk
   · rintro ⟨a, b⟩
     unfold internalHier bothInternal
     simp only [List.mem_filter, Bool.and_eq_true, mem_hierPairs]
@@ -415,7 +437,7 @@ theorem externals_excluded_lemma (mt : Str → Str → Bool) (base rootName : St
     refine ⟨n1, ?_⟩
     intro a b hab
     rw [mem_importPairs] at hab
-    obtain ⟨-, -, e3, e4, i, hi, rfl, rfl⟩ := (f1 a b).1 hab
+    obtain ⟨-, -, e3, e4, i, hi, -, rfl, rfl⟩ := (f1 a b).1 hab
     refine ⟨(n1 _).2 e3, (n1 _).2 e4, i.importee, ?_, rfl⟩
     have := ((mem_retainImports mt o pre I i).1 hi).2
     rw [retained_excluded mt o pre i hx hadm] at this
@@ -493,7 +515,7 @@ theorem externals_included_lemma (mt : Str → Str → Bool) (base rootName : St
     refine ⟨fun s hs => (n1 s).2 (hnode s hs), ?_⟩
     intro hXint
     rw [mem_importPairs, f1]
-    refine ⟨?_, ?_, ⟨i.importer, ?_, self_mem_chain _⟩, hnode _ (self_mem_chain _), i, hiR, rfl, rfl⟩
+    refine ⟨?_, ?_, ⟨i.importer, ?_, self_mem_chain _⟩, hnode _ (self_mem_chain _), i, hiR, rfl, rfl, rfl⟩
     · intro hp
       have := internal_chain hXint (parent_mem_chain (hierPair_parent hp))
       rw [this] at hext; cases hext
@@ -587,14 +609,16 @@ theorem externals_retained_lemma (mt : Str → Str → Bool) (base rootName : St
   refine ⟨fun s hs => (n1 s).2 (hnode s hs), ?_⟩
   intro hXint hYext
   rw [mem_importPairs, f1]
-  refine ⟨?_, ?_, ⟨i.importer, ?_, self_mem_chain _⟩, hnode _ (self_mem_chain _), i, hiR, rfl, rfl⟩
+  have hXM : i.importer ∈ moduleList mt base o pre parsed.allModules (retainImports mt o pre I) := by
+    rw [mem_moduleList]; exact Or.inl hXP
+  refine ⟨?_, ?_, ⟨i.importer, hXM, self_mem_chain _⟩, hnode _ (self_mem_chain _), i, hiR,
+    skipImportEdge_false_of_mem lim _ i (List.mem_append_left _ hXM) (List.mem_append_left _ hYM), rfl, rfl⟩
   · intro hp
     have := internal_chain hXint (parent_mem_chain (hierPair_parent hp))
     rw [this] at hYext; cases hYext
   · intro he
     rw [he] at hXint
     rw [hXint] at hYext; cases hYext
-  · rw [mem_moduleList]; exact Or.inl hXP
 
 /-- flattening to at least as many components as the prefix has does not change internality -/
 theorem isInternal_flatten (pre x : Str) (k : Nat) (hk : (splitDots pre).length ≤ k + 1) :
